@@ -279,8 +279,8 @@ class Newport_SingleAxisMotionController(QMI_Instrument):
     def close(self) -> None:
         _logger.info("Closing connection to instrument [%s]", self._name)
         self._check_is_open()
-        self._transport.close()
         super().close()
+        self._transport.close()
 
     @rpc_method
     def reset(self, controller_address: Optional[int] = None) -> None:
